@@ -114,6 +114,7 @@ PreludeTypes == <<
   "union U { int ua; float ub; };",
   "enum E { EK = 7 };",
   "#define MF(a, b) ((a) + (b))",
+  "#define MG(a, b) ((a) b)",
   "static int gst;",
   "extern int gex;",
   "int gdef = 5;",
